@@ -12,7 +12,7 @@ for d in seeded/*/; do
   test -f $d/meta.json || continue
   p=$(python3 -c "import json;print((lambda m: m.get('check_property_for_rerun', m['property']))(json.load(open('$d/meta.json'))))")
   git -C $repo apply $PWD/$d/patch.diff || { echo "$n $p patch does not apply"; continue; }
-  out=$(./vcheck check $p --tier quick 2>&1); rc=$?
+  out=$(VERIF_HANG_SECS=${VERIF_HANG_SECS:-150} timeout 1500 ./vcheck check $p --tier quick 2>&1); rc=$?
   git -C $repo checkout -- .
   key=$(echo "$out" | grep -m1 "^violation" | sed 's/.*key=\([^ ]*\).*/\1/')
   echo "$n $p exit=$rc $key"
